@@ -218,7 +218,15 @@ def gen(stratum, rng, tier):
     allass = [l for kw in calls for l in kw.get("assumptions", [])]
     if stratum not in ("reduce", "default-mode", "enum-reduce") and allass == []:  # (renumbering adds unused variables)
         shuffled, _ = cnf.renumber(shuffled, rng)
-    return {"clauses": shuffled, "calls": calls, "known": known, "budget": budget}
+    case = {"clauses": shuffled, "calls": calls, "known": known, "budget": budget}
+    if stratum in ("tiny", "threshold", "assume", "enum", "unsat-core", "tuning") and shuffled and rng.random() < 0.12:
+        # the same clause *object* (or tuple instead of list) occurring more than once in the input, e.g. F + F:
+        # perfectly valid input, and the solver must not let its in-place watch reordering of one occurrence
+        # disturb the other
+        k = rng.randint(1, 3)
+        case["alias"] = [(rng.randrange(len(shuffled)), rng.randrange(len(shuffled) + 1)) for _ in range(k)]
+        case["as_tuples"] = rng.random() < 0.3
+    return case
 
 
 SUITE_FILES = ["tests/solvors/test_sat.py", "tests/solvors/test_cp.py"]
@@ -263,6 +271,18 @@ def run_suite(case, obs, judge):
     obs.nontrivial = True
 
 
+def _call_clauses(case):
+    """The clause list handed to solve_sat: fresh list objects, except for deliberate aliasing (the same list
+    object at several positions) and tuple clauses when the case asks for them."""
+    cl = [list(c) for c in case["clauses"]]
+    for i, pos in case.get("alias") or ():
+        if i < len(cl):
+            cl.insert(min(pos, len(cl)), cl[i])
+    if case.get("as_tuples"):
+        cl = [tuple(c) if k % 2 else c for k, c in enumerate(cl)]
+    return cl
+
+
 def run(case, obs, judge):
     """judge: 'C01' or 'C02'."""
     from vf.common import call, is_crash
@@ -285,7 +305,7 @@ def run(case, obs, judge):
     while calls:
         kw = calls.pop(0)
         _mon.drain()
-        res = call(obs, _sat.solve_sat, [list(c) for c in clauses], budget=case["budget"], what="solve_sat",
+        res = call(obs, _sat.solve_sat, _call_clauses(case), budget=case["budget"], what="solve_sat",
                    hang_cls="sat.no-return-within-budget" if judge == "C02" else "event-only-hang", **kw)
         recs = _mon.drain()
         if is_crash(res):
